@@ -70,7 +70,10 @@ def main():
             t0 = time.time()
             # must-fail patches: no second attempt for undecided obligations (it only guards against false alarms)
             nr = "VERIF_NO_RETRY=1 " if kind == "mustfail" else ""
-            c = sh(f"{nr}VERIF_REPO={wt} VERIF_SELFTEST=1 /verif/bin/govc check -prop {prop} -noreplay -noevidence")
+            # seeded changes run the check as registered (with replay / witness search / bounded stand-ins);
+            # hand-written mutations skip the replay step to save time
+            rp = "" if "_seed_" in name else "-noreplay "
+            c = sh(f"{nr}VERIF_REPO={wt} VERIF_SELFTEST=1 /verif/bin/govc check -prop {prop} {rp}-noevidence")
             dt = time.time() - t0
             viol = "VIOLATION" in c.stdout
             ok = (viol and c.returncode == 1) if kind == "mustfail" else (not viol and c.returncode == 0)
